@@ -9,10 +9,12 @@ import solvercorr as sc
 import solverslices
 from props.c04 import TRUSTED as _T
 
-THEOREMS = ["C01_symbol", "C01_consistency", "C01_bvp_exact", "C01_top_decay", "C01_top_decays_in_C", "C01_convergence_partial"]
+THEOREMS_R = ["C01_top_decays_in_C", "C01_convergence_partial", "C01_convergence_varying", "C01_varying_layers", "C01_varying_layers_are_the_models", "C01_ivp_first_order"]
+THEOREMS = ["C01_symbol", "C01_consistency", "C01_bvp_exact", "C01_top_decay"] + THEOREMS_R
 TRUSTED = _T + ["scipy.integrate.solve_ivp (DOP853, rtol 1e-11) as the reference for the continuous boundary-value problem in the oracle"]
 ASSUMPTIONS = [
-    "PARTIAL: convergence of the discrete solution to the ODE solution as the grid is refined is a Coq theorem for HEIGHT-INDEPENDENT coefficients only (C01_convergence_partial: explicit third-order bound on any grid, every wind, plus is_lim_seq on uniform grids); for height-dependent profiles it is not proved (no ODE library is installed); proved in general are consistency of every layer step, exactness and uniqueness of the discrete two-point problem and the decaying top condition; the asymptotic clause is decided by the oracle against an independent Riccati integration at n, 4n, 16n layers",
+    "convergence for HEIGHT-DEPENDENT profiles is the theorem C01_convergence_varying (Proofs/VaryingOrder.v): for coefficient functions with Kz >= kmin > 0, bounded symbol T and Lipschitz 1/Kz and T, on every grid with dmax <= h0 (explicit) the model's shooting solution differs from the exact BVP solution by at most C2*dmax (explicit C2) at every node, and the shooting denominator is non-zero; the EXISTENCE of the exact solutions (the BVP solution and the fundamental solution from (1,0)) and a positive lower bound of the continuous shooting denominator are hypotheses of the theorem (no ODE existence theory is installed) - a non-degenerate height-dependent instance satisfying all hypotheses is proved (instance_shooting_converges); C01_varying_layers_are_the_models shows that the theorem's layers are exactly Model/Solver.layers_of on the sampled profile arrays; for height-independent coefficients C01_convergence_partial gives the sharper third-order bound",
+    "PARTIAL: the numerical factor of the property ('by at least 2.5 times when the layer thickness is quartered') is an asymptotic-expansion statement that a first-order bound does not imply; it is decided by the oracle against an independent Riccati integration at n, 4n, 16n layers",
     "oracle criteria: per resolved component the error ratio over the finest quartering (4n -> 16n) is >= 2.5 and the error at every grid is <= 8 x the relative layer thickness; the coarsest quartering is not asserted per component because isolated components show accidental error cancellation on the coarsest grid (measured on the unchanged tree: ratios between 0.04 and 16 with fine-step ratios 3.2-4.5 throughout)",
 ]
 
@@ -29,7 +31,7 @@ def gen(ctx):
 
 
 def check(ctx):
-    core.check_properties_file(ctx, "Properties/C01.v", THEOREMS, {"C01_top_decays_in_C": core.AX_REALS, "C01_convergence_partial": core.AX_REALS})
+    core.check_properties_file(ctx, "Properties/C01.v", THEOREMS, {n: core.AX_REALS for n in THEOREMS_R})
     solverslices.run(ctx)
     cases = gen(ctx)
     recs = sc.correspond(ctx, cases, "c01_")
